@@ -21,7 +21,7 @@ def gen(rng, i):
     for j in range(n):
         subs.append({"S": rng.choice([0, 0, 10, 60]), "script": rng.choice([["V"], ["E", "V"], ["E", "E", "E"], ["F"], ["E", "F"]]),
                      "dur": rng.choice([0, 30, 100]), "thread": j % rng.choice([1, 2]), "cb": rng.random() < 0.3,
-                     "cb_raise": rng.random() < 0.4, "K": rng.sample([0, 30, 100, 130], rng.choice([0, 0, 1]))})
+                     "cb_raise": rng.choice([False, False, True, "first", "first"]), "K": rng.sample([0, 30, 100, 130], rng.choice([0, 0, 1]))})
     return {"base": rng.choice(["pool", "pool", "sync"]), "workers": rng.choice([1, 2]), "layers": layers, "subs": subs,
             "probe": rng.choice([700, 900]), "horizon": 6000}
 
@@ -45,11 +45,17 @@ def run(ck):
     for ((t, r), _), (v, step) in zip(pairs, v2):
         if v != "ok":
             ck._judge(t, r, "C18_OwnFutureOnly/" + v, step, "StackObsTrace")
+    # ... and a raising done-callback must not cost any other callback of the same future its run (FutureObs)
+    v3, _ = tlc.validate_traces("FutureObsTrace", traces)
+    for ((t, r), _), (v, step) in zip(pairs, v3):
+        if v != "ok":
+            ck._judge(t, r, "C18_OwnFutureOnly/" + v, step, "FutureObsTrace")
     # component families with their own fault scripts, judged by FaultObs as well as by their contracts
     fam = []
     for i in range(150 if quick else 3000):
         p = c08.gen(rng, i)
         p["poll_raise"] = rng.choice([1, 2, 3])
+        p["poll_raise_after"] = rng.random() < 0.6
         p["cancel_fn"] = rng.choice(["raise", "raise", "false", None])
         fam.append({"scen": "poll", "params": p, "strat": ["random", rng.randrange(10 ** 9), 0.5],
                     "gran": "line" if i % 5 == 0 else "sync", "facts": {}})
